@@ -381,6 +381,27 @@ theorem parser_accepts_only_wellformed_or_lenient (hfl : fl.rowLenThrows = true)
     · exact Or.inr (Or.inr ⟨lines, hpre, hl⟩)
   · exact Or.inr (Or.inl hl)
 
+/-- **The repair changes the outcome only on texts with a listed leniency.**  If the current parser accepts a text and neither a preamble
+    line nor a statement line shows a leniency, the strict parser (fixes/C18-3) accepts it too, with the same sizes, discount, name tables
+    and, cell by cell, the same three tables. -/
+theorem strict_parse_agrees (hfl : fl.rowLenThrows = true) {k : Kind} {text : Str} {r : Parsed}
+    (h : parse fl k text = .ok r)
+    (hpre : ¬ ∃ raw ∈ splitLines text, LenientPre (trim raw))
+    (hlines : ∀ lines, parseModelInfo fl (splitLines text) {} [] = .ok (r.pre, lines) → ¬ HasLenientLine lines) :
+    ∃ r', parse (strictOf fl) k text = .ok r' ∧ r'.pre = r.pre ∧ ∀ d1 a d3,
+      tableAt r'.st.wT d1 a d3 = tableAt r.st.wT d1 a d3 ∧
+      tableAt r'.st.wR d1 a d3 = tableAt r.st.wR d1 a d3 ∧
+      tableAt r'.st.wW d1 a d3 = tableAt r.st.wW d1 a d3 := by
+  obtain ⟨lines0, _, hsz, hfit, _⟩ := parse_ok_inv h
+  rcases parser_accepts_only_wellformed_or_lenient hfl h with ⟨lines, sT, sR, sW, hp, hfile, htab⟩ | hl | ⟨lines, hp, hl⟩
+  · obtain ⟨r', hr', hpre', htab'⟩ := parser_refines_spec (strictOf fl) k text r.pre lines sT sR sW hp hsz hfit hfile
+    refine ⟨r', hr', hpre', fun d1 a d3 => ?_⟩
+    obtain ⟨a1, a2, a3⟩ := htab' d1 a d3
+    obtain ⟨b1, b2, b3⟩ := htab d1 a d3
+    exact ⟨by rw [a1, b1], by rw [a2, b2], by rw [a3, b3]⟩
+  · exact absurd hl hpre
+  · exact absurd hl (hlines lines hp)
+
 /-- the witnesses of the open finding are lenient tokens in the sense above (kernel-evaluated tests on literals) -/
 theorem lenient_witnesses :
     (match stoul "1x".toList with | .ok n => n == 1 && stoulPos "1x".toList != "1x".toList.length | .error _ => false) = true ∧
